@@ -46,7 +46,7 @@ from harness.lib import coqbuild, protocol as P
 LEVEL = "proof"
 THEOREMS = ["C09_immutable", "C09_by_timestamp", "C09_delete_current", "C09_by_id", "C09_collect_keeps_retained",
             "C09_retained_content_step", "C09_retained_content_stable", "C09_collect_roots_every_snapshot",
-            "C09_collect_roots_ignore_lineage", "C09_collect_opens_roots"]
+            "C09_collect_roots_ignore_lineage", "C09_collect_opens_roots", "C09_lookups_regenerated"]
 MANIFEST_ENTRY = {
     "level_text": "Immutability of committed versions under every later sequence of commits, failures and rollbacks proved in Coq "
                   "(C09_immutable, unbounded); time-travel lookups and current-snapshot repointing proved over the metadata model "
@@ -568,7 +568,7 @@ def run(ctx) -> None:
                          "harness/lib/gcsim.py (directory -> Model/GC.v store; traced storage; frozen clock) as in C05"]
     ctx.assumptions += ["snapshot timestamps non-decreasing in commit order (DESIGN.md C09 interpretation)",
                         "file names are fresh (uuid4 collisions excluded): valid_commit of Model/GCHist.v"]
-    ctx.proofs(THEOREMS, gen_files=["GenNorm.v", "GenGCRoots.v"])
+    ctx.proofs(THEOREMS, gen_files=["GenMeta.v", "GenNorm.v", "GenGCRoots.v"])
     ctx.allow_axioms([])
     import logging
     logging.disable(logging.CRITICAL)
